@@ -1,0 +1,229 @@
+//go:build verif
+
+// This file is only compiled with the "verif" build tag.
+// It exposes unexported pure helpers to the verification harness in /verif
+// and adds constructors for synthetic trees. It adds no behaviour to the
+// package and touches no existing declaration.
+
+package commonmark
+
+// VerifClassifier returns the named byte classifier result.
+func VerifClassifier(name string, c byte) (result byte, ok bool) {
+	b2b := func(b bool) byte {
+		if b {
+			return 1
+		}
+		return 0
+	}
+	switch name {
+	case "isSpaceTabOrLineEnding":
+		return b2b(isSpaceTabOrLineEnding(c)), true
+	case "isASCIILetter":
+		return b2b(isASCIILetter(c)), true
+	case "isASCIIDigit":
+		return b2b(isASCIIDigit(c)), true
+	case "isASCIIPunctuation":
+		return b2b(isASCIIPunctuation(c)), true
+	case "isASCIIControl":
+		return b2b(isASCIIControl(c)), true
+	case "isHex":
+		return b2b(isHex(c)), true
+	case "toLowerASCII":
+		return toLowerASCII(c), true
+	case "isUnquotedAttributeValueChar":
+		return b2b(isUnquotedAttributeValueChar(c)), true
+	case "urlHexDigit":
+		if c >= 0x10 {
+			return 0, false
+		}
+		return urlHexDigit(c), true
+	}
+	return 0, false
+}
+
+// VerifIsUnicodeWhitespace exposes isUnicodeWhitespace.
+func VerifIsUnicodeWhitespace(c rune) bool { return isUnicodeWhitespace(c) }
+
+// VerifIsUnicodePunctuation exposes isUnicodePunctuation.
+func VerifIsUnicodePunctuation(c rune) bool { return isUnicodePunctuation(c) }
+
+// VerifParseThematicBreak exposes parseThematicBreak.
+func VerifParseThematicBreak(line []byte) int { return parseThematicBreak(line) }
+
+// VerifParseATXHeading exposes parseATXHeading.
+func VerifParseATXHeading(line []byte) (level int, content Span) {
+	h := parseATXHeading(line)
+	return h.level, h.content
+}
+
+// VerifParseSetextHeadingUnderline exposes parseSetextHeadingUnderline.
+func VerifParseSetextHeadingUnderline(line []byte) int {
+	return parseSetextHeadingUnderline(line)
+}
+
+// VerifParseCodeFence exposes parseCodeFence.
+func VerifParseCodeFence(line []byte) (char byte, n int, info Span) {
+	f := parseCodeFence(line)
+	return f.char, f.n, f.info
+}
+
+// VerifParseListMarker exposes parseListMarker.
+func VerifParseListMarker(line []byte) (delim byte, n int, end int) {
+	m := parseListMarker(line)
+	return m.delim, m.n, m.end
+}
+
+// VerifLineCount exposes lineCount.
+func VerifLineCount(b []byte) int { return lineCount(b) }
+
+// VerifColumnWidth exposes columnWidth.
+func VerifColumnWidth(start int, b []byte) int { return columnWidth(start, b) }
+
+// VerifPadNulls exposes padNulls.
+func VerifPadNulls(b []byte, start int) []byte { return padNulls(b, start) }
+
+// VerifUnpaddedNullLength exposes unpaddedNullLength.
+func VerifUnpaddedNullLength(b []byte) int { return unpaddedNullLength(b) }
+
+// VerifFillNulls exposes fillNulls.
+func VerifFillNulls(b []byte) { fillNulls(b) }
+
+// VerifIsBlankLine exposes isBlankLine.
+func VerifIsBlankLine(b []byte) bool { return isBlankLine(b) }
+
+// VerifParseCharacterEscape exposes parseCharacterEscape.
+func VerifParseCharacterEscape(b []byte) int { return parseCharacterEscape(b) }
+
+// VerifParseAutolink exposes parseAutolink.
+func VerifParseAutolink(b []byte) int { return parseAutolink(b) }
+
+// VerifParseEmail exposes parseEmail.
+func VerifParseEmail(b []byte) int { return parseEmail(b) }
+
+// VerifEscapeHTML exposes escapeHTML.
+func VerifEscapeHTML(dst, src []byte) []byte { return escapeHTML(dst, src) }
+
+// VerifEmphasisFlags exposes emphasisFlags as (canOpen, canClose).
+func VerifEmphasisFlags(source []byte, span Span) (canOpen, canClose bool) {
+	f := emphasisFlags(source, span)
+	return f&openerFlag != 0, f&closerFlag != 0
+}
+
+// VerifIsEmphasisDelimiterMatch exposes isEmphasisDelimiterMatch.
+// typ: 1 = star, 2 = underscore.
+func VerifIsEmphasisDelimiterMatch(otyp int, oOpen, oClose bool, on int, ctyp int, cOpen, cClose bool, cn int) bool {
+	mk := func(typ int, op, cl bool, n int) delimiterStackElement {
+		e := delimiterStackElement{typ: inlineDelimiter(typ), n: n, flags: activeFlag}
+		if op {
+			e.flags |= openerFlag
+		}
+		if cl {
+			e.flags |= closerFlag
+		}
+		return e
+	}
+	return isEmphasisDelimiterMatch(mk(otyp, oOpen, oClose, on), mk(ctyp, cOpen, cClose, cn))
+}
+
+// VerifOpenersBottomIndex exposes openersBottomIndex.
+func VerifOpenersBottomIndex(typ int, canOpen bool, n int) int {
+	e := delimiterStackElement{typ: inlineDelimiter(typ), n: n, flags: activeFlag}
+	if canOpen {
+		e.flags |= openerFlag
+	}
+	return e.openersBottomIndex()
+}
+
+// VerifOpenersBottomCount exposes openersBottomCount.
+const VerifOpenersBottomCount = openersBottomCount
+
+// VerifHTMLBlockConditionCount returns len(htmlBlockConditions).
+func VerifHTMLBlockConditionCount() int { return len(htmlBlockConditions) }
+
+// VerifHTMLBlockStart evaluates the i'th HTML block start condition.
+func VerifHTMLBlockStart(i int, line []byte) bool {
+	return htmlBlockConditions[i].startCondition(line)
+}
+
+// VerifHTMLBlockEnd evaluates the i'th HTML block end condition.
+func VerifHTMLBlockEnd(i int, line []byte) bool {
+	return htmlBlockConditions[i].endCondition(line)
+}
+
+// VerifHTMLBlockCanInterrupt returns the i'th condition's canInterruptParagraph.
+func VerifHTMLBlockCanInterrupt(i int) bool {
+	return htmlBlockConditions[i].canInterruptParagraph
+}
+
+// VerifFilterRaw runs filterRaw on a fresh render state with the given predicate
+// and returns the bytes appended.
+func VerifFilterRaw(filter func(tag []byte) bool, raw []byte) []byte {
+	state := &renderState{HTMLRenderer: &HTMLRenderer{FilterTag: filter}}
+	state.filterRaw(raw)
+	return state.dst
+}
+
+// VerifHTMLTagNameEnd exposes htmlTagNameEnd.
+func VerifHTMLTagNameEnd(b []byte) int { return htmlTagNameEnd(b) }
+
+// VerifNormalizeLabel runs transformLinkReferenceSpan over a single
+// unparsed run covering all of label.
+func VerifNormalizeLabel(label []byte) string {
+	nodes := []*Inline{{kind: UnparsedKind, span: Span{Start: 0, End: len(label)}}}
+	return transformLinkReferenceSpan(label, nodes, Span{Start: 0, End: len(label)})
+}
+
+// VerifIsEntity exposes isEntity.
+func VerifIsEntity(b []byte) bool { return isEntity(b) }
+
+// VerifParseHardLineBreakSpace exposes parseHardLineBreakSpace.
+func VerifParseHardLineBreakSpace(b []byte) (int, bool) { return parseHardLineBreakSpace(b) }
+
+// VerifBlockAttrs is the set of unexported block attributes
+// needed to build synthetic trees.
+type VerifBlockAttrs struct {
+	Kind      BlockKind
+	Span      Span
+	N         int
+	Char      byte
+	Indent    int
+	ListLoose bool
+}
+
+// VerifNewBlock builds a block with the given attributes and children.
+// At most one of blockChildren and inlineChildren should be non-empty.
+func VerifNewBlock(attrs VerifBlockAttrs, blockChildren []*Block, inlineChildren []*Inline) *Block {
+	return &Block{
+		kind:           attrs.Kind,
+		span:           attrs.Span,
+		n:              attrs.N,
+		char:           attrs.Char,
+		indent:         attrs.Indent,
+		listLoose:      attrs.ListLoose,
+		blockChildren:  blockChildren,
+		inlineChildren: inlineChildren,
+	}
+}
+
+// VerifBlockInternals returns the unexported attributes of a block.
+func VerifBlockInternals(b *Block) VerifBlockAttrs {
+	return VerifBlockAttrs{
+		Kind:      b.kind,
+		Span:      b.span,
+		N:         b.n,
+		Char:      b.char,
+		Indent:    b.indent,
+		ListLoose: b.listLoose,
+	}
+}
+
+// VerifNewInline builds an inline node with the given attributes and children.
+func VerifNewInline(kind InlineKind, span Span, indent int, ref string, children []*Inline) *Inline {
+	return &Inline{kind: kind, span: span, indent: indent, ref: ref, children: children}
+}
+
+// VerifInlineRef returns the unexported ref field of an inline node.
+func VerifInlineRef(i *Inline) string { return i.ref }
+
+// VerifDocumentKind exposes documentKind.
+func VerifDocumentKind() BlockKind { return documentKind }
